@@ -759,9 +759,14 @@ def prod(a, axis=None, out=None, out_like=None, sizing='optimal', method='raw', 
     """
     """
     def _prod_raw(x, n_frac, axis=None, **kwargs):
-        precision_cast = (lambda m: np.array(m, dtype=object)) if n_frac >= _n_word_max else (lambda m: m)
         num_of_products = a.size if axis is None else a.shape[axis]
-        return np.prod(x.val, axis=axis, **kwargs) * precision_cast(2**(n_frac - num_of_products * x.n_frac))
+        # python integers when the product, rescaled to the result's fraction length, does not fit the 64-bit integer types
+        n_shift = n_frac - num_of_products * x.n_frac
+        n_bits = num_of_products * x.n_word + max(n_shift, 0)
+        if n_frac >= _n_word_max or n_bits >= 63:
+            val = np.prod(np.array(x.val, dtype=object), axis=axis, **kwargs)
+            return val * 2**n_shift if n_shift >= 0 else _scale_down_exact(val, -n_shift)
+        return np.prod(x.val, axis=axis, **kwargs) * 2**n_shift
 
     if not isinstance(a, Fxp):
         a = Fxp(a)
@@ -781,8 +786,14 @@ def dot(x, y, out=None, out_like=None, sizing='optimal', method='raw', **kwargs)
     """
     """
     def _dot_raw(x, y, n_frac, **kwargs):
-        precision_cast = (lambda m: np.array(m, dtype=object)) if n_frac >= _n_word_max else (lambda m: m)
-        return np.dot(x.val, y.val, **kwargs) * precision_cast(2**(n_frac - x.n_frac - y.n_frac))
+        # python integers when the sum of products, rescaled to the result's fraction length, does not fit the 64-bit integer types
+        # (53 bits for a signed with an unsigned operand: numpy combines them in float64)
+        n_shift = n_frac - x.n_frac - y.n_frac
+        n_bits = int(np.ceil(np.log2(max(x.shape[-1] if x.ndim > 0 else 1, 1)))) + x.n_word + y.n_word + max(n_shift, 0)
+        if n_frac >= _n_word_max or n_bits >= 63 or (x.signed != y.signed and n_bits >= 53):
+            val = np.dot(np.array(x.val, dtype=object), np.array(y.val, dtype=object), **kwargs)
+            return val * 2**n_shift if n_shift >= 0 else _scale_down_exact(val, -n_shift)
+        return np.dot(x.val, y.val, **kwargs) * 2**n_shift
 
     if not isinstance(x, Fxp):
         x = Fxp(x)
@@ -804,8 +815,14 @@ def matmul(x, y, out=None, out_like=None, sizing='optimal', method='raw', **kwar
     Matrix product of two arrays, calculated with the integer codes and sized like `dot`.
     """
     def _matmul_raw(x, y, n_frac, **kwargs):
-        precision_cast = (lambda m: np.array(m, dtype=object)) if n_frac >= _n_word_max else (lambda m: m)
-        return np.matmul(x.val, y.val, **kwargs) * precision_cast(2**(n_frac - x.n_frac - y.n_frac))
+        # python integers when the sum of products, rescaled to the result's fraction length, does not fit the 64-bit integer types
+        # (53 bits for a signed with an unsigned operand: numpy combines them in float64)
+        n_shift = n_frac - x.n_frac - y.n_frac
+        n_bits = int(np.ceil(np.log2(max(x.shape[-1] if x.ndim > 0 else 1, 1)))) + x.n_word + y.n_word + max(n_shift, 0)
+        if n_frac >= _n_word_max or n_bits >= 63 or (x.signed != y.signed and n_bits >= 53):
+            val = np.matmul(np.array(x.val, dtype=object), np.array(y.val, dtype=object), **kwargs)
+            return val * 2**n_shift if n_shift >= 0 else _scale_down_exact(val, -n_shift)
+        return np.matmul(x.val, y.val, **kwargs) * 2**n_shift
 
     if not isinstance(x, Fxp):
         x = Fxp(x)
